@@ -364,6 +364,15 @@ PROFILES = {
 
 def gen_spec(rng: random.Random, profile='plain', n_min=3, n_max=8, fail_p=0.15, modes=('coro',),
              retry_p=0.3, falsy_p=0.15, cb_p=0.0, hash_fail_p=0.0):
+    """generate a spec; for a construct profile, retry (same PRNG stream) when pruning left a plain pipeline"""
+    for _ in range(4):
+        spec = _gen_spec(rng, profile, n_min, n_max, fail_p, modes, retry_p, falsy_p, cb_p, hash_fail_p)
+        if profile == 'plain' or shape_class(spec) != 'plain':
+            break
+    return spec
+
+
+def _gen_spec(rng, profile, n_min, n_max, fail_p, modes, retry_p, falsy_p, cb_p, hash_fail_p):
     """generate a declaration-level spec. Nodes are created in dependency order; the last node is the
     output; nodes the output cannot reach are dropped (build_dag never sees them)."""
     P = PROFILES[profile]
@@ -416,8 +425,14 @@ def gen_spec(rng: random.Random, profile='plain', n_min=3, n_max=8, fail_p=0.15,
                 refs[dec] = refs.get(dec, 0) + 1
                 labels = [c[0] for c in cases]
                 lab = rng.choice(labels) if rng.random() > 0.12 else 'unknown'
-                if nodes[dec]['body']['kind'] != 'label' and dec != 0:
-                    nodes[dec]['body'] = {'kind': 'label', 'v': lab}
+                if nodes[dec]['body']['kind'] not in ('label', 'labels') and dec != 0:
+                    if rng.random() < 0.3:
+                        # the decision may change between invocations (visible when the switch is re-evaluated in a
+                        # recurrent iteration)
+                        nodes[dec]['body'] = {'kind': 'labels',
+                                              'v': [lab] + [rng.choice(labels + ['unknown']) for _ in range(rng.randint(1, 2))]}
+                    else:
+                        nodes[dec]['body'] = {'kind': 'label', 'v': lab}
                 elif dec == 0:
                     continue_ok = False  # the input node cannot be a decider with a constant label
                     for lab_, c in cases:
@@ -464,6 +479,18 @@ def gen_spec(rng: random.Random, profile='plain', n_min=3, n_max=8, fail_p=0.15,
                 nd['marks'].append([pname, {'kind': 'input', 'src': src}])
                 used_params += 1
         nodes.append(nd)
+
+    # a collecting output: the last node also reads (plain Input) nodes nobody references, so that less of the
+    # generated structure is pruned away
+    if rng.random() < 0.6:
+        out = nodes[-1]
+        have = {tgt for _, m in out['marks'] for tgt in mark_targets(m)}
+        free = [j for j in range(1, n - 1) if refs.get(j, 0) == 0 and j not in reserved and j not in have]
+        rng.shuffle(free)
+        for j in free[:max(0, 6 - len(out['marks']))]:
+            pname = 'abcdefgh'[len(out['marks'])]
+            out['marks'].append([pname, {'kind': 'input', 'src': j}])
+            refs[j] = 1
 
     # behaviours
     for i, nd in enumerate(nodes):
